@@ -293,8 +293,14 @@ func runCase(id int, c cpuCase, plan cpuPlan, skip int, progress func(cfg int, n
 			for rep := 0; rep < plan.repeats; rep++ {
 				// a fresh parse per run, except for the last repeat which re-uses the first parsed
 				// program (C08: reuse of a parsed program by a second machine)
+				// repeat 0 runs on `app` (parsed once per case and handed to every configuration in turn:
+				// reuse of a parsed program by later machines); middle repeats parse afresh; the last
+				// repeat re-uses `app` again after this configuration has already run it (C08)
 				a := app
-				if rep == 0 || rep != plan.repeats-1 {
+				if plan.repeats > 1 && rep != 0 && rep != plan.repeats-1 {
+					a, _ = risc.Parse(c.text)
+				}
+				if plan.repeats == 1 {
 					a, _ = risc.Parse(c.text)
 				}
 				res := runOne(v, n, a, c, budget)
@@ -543,7 +549,7 @@ func cpuStream(name string, plan cpuPlan) streamFn {
 	}
 }
 
-var allFamilies = []string{"alu", "dep", "dep-mem", "mem", "br", "br-mem", "shadow", "shadow-reg", "tail", "pair", "err"}
+var allFamilies = []string{"alu", "dep", "dep-mem", "mem", "br", "br-mem", "shadow", "shadow-reg", "tail", "pair", "err", "evict", "jumps"}
 
 func init() {
 	streams["cpuworker"] = func(dir string, seed int64, tier string) {}
@@ -552,13 +558,13 @@ func init() {
 	cached := append([]string{"mvp3"}, pipelined...)
 	all4 := []int{1, 2, 3, 4}
 	streams["cpu-c01"] = cpuStream("cpu-c01", cpuPlan{families: allFamilies, n: 770, pars: all4, repeats: 1})
-	streams["cpu-c03"] = cpuStream("cpu-c03", cpuPlan{families: []string{"shadow", "shadow-reg", "br", "shadow-reg", "br-mem", "shadow"}, n: 720, variants: pipelined, pars: all4, repeats: 1})
-	streams["cpu-c04"] = cpuStream("cpu-c04", cpuPlan{families: []string{"dep", "dep-mem", "alu", "dep"}, n: 720, variants: pipelined, pars: all4, repeats: 1})
-	streams["cpu-c05"] = cpuStream("cpu-c05", cpuPlan{families: []string{"mem", "dep-mem", "pair", "tail", "mem"}, n: 600, variants: cached, pars: all4, repeats: 1})
-	streams["cpu-c07"] = cpuStream("cpu-c07", cpuPlan{families: append([]string{"err", "br", "err"}, allFamilies...), n: 700, pars: all4, repeats: 1})
+	streams["cpu-c03"] = cpuStream("cpu-c03", cpuPlan{families: []string{"shadow", "shadow-reg", "br", "shadow-reg", "br-mem", "shadow", "jumps"}, n: 720, variants: pipelined, pars: all4, repeats: 1})
+	streams["cpu-c04"] = cpuStream("cpu-c04", cpuPlan{families: []string{"dep", "dep-mem", "alu", "dep", "jumps"}, n: 720, variants: pipelined, pars: all4, repeats: 1})
+	streams["cpu-c05"] = cpuStream("cpu-c05", cpuPlan{families: []string{"mem", "evict", "dep-mem", "pair", "tail", "evict"}, n: 600, variants: cached, pars: all4, repeats: 1})
+	streams["cpu-c07"] = cpuStream("cpu-c07", cpuPlan{families: append([]string{"err", "br", "err", "jumps"}, allFamilies...), n: 700, pars: all4, repeats: 1})
 	streams["cpu-c09"] = cpuStream("cpu-c09", cpuPlan{families: []string{"tail", "br-mem", "tail", "dep-mem"}, n: 720, variants: pipelined, pars: all4, repeats: 1})
 	streams["cpu-c10"] = cpuStream("cpu-c10", cpuPlan{families: []string{"pair", "mem", "pair"}, n: 600, variants: pipelined, pars: all4, repeats: 1})
-	streams["cpu-c12"] = cpuStream("cpu-c12", cpuPlan{families: []string{"alu", "dep", "dep-mem", "mem", "br", "tail", "pair", "br-mem"}, n: 800, pars: all4, repeats: 1, pairs: true})
+	streams["cpu-c12"] = cpuStream("cpu-c12", cpuPlan{families: []string{"alu", "dep", "dep-mem", "mem", "br", "tail", "pair", "br-mem", "jumps"}, n: 800, pars: all4, repeats: 1, pairs: true})
 	streams["cpu-c08"] = cpuStream("cpu-c08", cpuPlan{families: []string{"dep", "dep-mem", "mem", "br", "pair", "alu", "shadow-reg"}, n: 350, pars: []int{1, 2, 3}, repeats: 3})
 	streams["cpu-inorder"] = cpuStream("cpu-inorder", cpuPlan{families: allFamilies, n: 1500,
 		variants: []string{"mvp1", "mvp2", "mvp3", "mvp4", "mvp5"}, pars: []int{1}, repeats: 1})
